@@ -8,11 +8,14 @@ Formats == {"pack-0.92", "1.9", "2a", "development-colo"}
 Rank(f) == CASE f = "pack-0.92" -> 1 [] f = "1.9" -> 2 [] OTHER -> 3
 Targets == {"tree", "branch", "checkout", "lightweight-checkout", "use-shared", "standalone"}
 
+\* how the master's tip relates to the location's own branch tip (a lightweight checkout has no tip of its own)
+Syncs == {"same", "master-ahead", "local-ahead", "diverged"}
 ValidLayout(l) ==
     /\ l.br \in {"local", "bound", "ref"} /\ l.repo \in {"own", "shared", "none", "unused"}
     /\ (l.br = "ref") = (l.repo \in {"none", "unused"})
     /\ (l.br = "ref" => l.tree) /\ (l.repo = "shared" => l.above) /\ (l.dirty => l.tree)
     /\ l.km \in BOOLEAN /\ l.pure \in BOOLEAN /\ (l.br # "local" => l.km)
+    /\ l.sync \in Syncs /\ (l.br = "ref" => l.sync = "same") /\ l.pre \in BOOLEAN /\ (l.pre => l.above)
     /\ l.fmt \in Formats /\ l.mfmt \in Formats /\ (l.above = (l.sfmt \in Formats)) /\ (~l.above => l.sfmt = "none")
 
 \* the repository a newly created local branch lives in: an existing own one, else the enclosing shared one, else a new own
@@ -44,6 +47,10 @@ Plan(l, k) ==
            IF l.br = "ref" /\ l.repo = "none" THEN No(l, "already")
            ELSE IF l.br = "ref" THEN Yes([l EXCEPT !.repo = "none"])                         \* drops the unused repository
            ELSE IF ~l.km THEN No(l, "refused")                                               \* NoBindLocation
+           \* the local branch is about to be destroyed: only when the reference has exactly the same tip
+           ELSE IF l.sync # "same" THEN No(l, "refused")                                     \* UnsyncedBranches
+           \* the own repository's extra revisions have to go into the master's repository first
+           ELSE IF l.repo = "own" /\ ~Compat(l.fmt, l.mfmt) THEN No(l, "refused")           \* IncompatibleRepositories
            ELSE Yes([l EXCEPT !.tree = TRUE, !.br = "ref", !.repo = "none"])
       [] k = "use-shared" ->
            IF l.repo \in {"shared", "none"} THEN No(l, "already")
@@ -54,7 +61,19 @@ Plan(l, k) ==
       [] k = "standalone" ->
            IF l.repo \in {"own", "unused"} THEN No(l, "already")
            ELSE IF l.repo = "none" THEN Yes([l EXCEPT !.repo = "unused"])
-           ELSE Yes([l EXCEPT !.repo = "own"])
+           ELSE Yes([l EXCEPT !.repo = "own", !.pre = TRUE])
+(* Revisions OUTSIDE the tip's ancestry that the location still names - the target of a tag, a merge pending in the
+   working tree.  AS IMPLEMENTED, apply() copies the whole old repository only when the location's OWN repository is
+   destroyed (use-shared, own -> lightweight checkout); wherever a branch is re-made in another repository it fetches the
+   tip's ancestry only (standalone out of a shared repository; tree / branch / checkout out of a lightweight checkout),
+   and a branch that lived in a shared repository is turned into a reference without any fetch: the named revisions
+   are then absent from the repository the location uses (the pending merge becomes a ghost). *)
+DropsOffMainline(l, k) ==
+    LET p == Plan(l, k) IN
+    /\ p.out = "ok"
+    /\ \/ (l.repo = "shared" /\ p.lay.repo \in {"own", "none"})
+       \/ (l.br = "ref" /\ p.lay.br # "ref")
+
 (* Upgrade(f) of the control directory at the location, AS IMPLEMENTED.  The components there: an own repository (if
    any), the branch (unless the location is a lightweight checkout), the working tree (if any).  Their on-disk formats
    depend on the control-dir format only through its level: repository KnitPack1 / KnitPack6 / 2a, branch 6 / 7 / 7,
